@@ -15,7 +15,8 @@ RULE = ("POMDP specs (2-4 states, 1-3 actions, 1-3 observations, integer-weight 
         "Oracle: Bayes filter on exact Fractions. Non-trivial: >=3 states or >=3 observations, belief with >=2 "
         "positive components and some observation with predictive probability strictly between 0 and 1; distinct by "
         "spec hash."
-        ' Also: raw specs whose absorbing states have successors outside the state list (belief reward only); caller-supplied agent states (support only, reversed order); extreme beliefs matched with entrywise relative tolerance.')
+        ' Also: raw specs whose absorbing states have successors outside the state list (belief reward only); caller-supplied agent states (support only, reversed order); extreme beliefs matched with entrywise relative tolerance.'
+        ' Declared (unsorted) observation lists.')
 ASSUMPTIONS = ["float results are compared with exact rationals at 1e-12", "beliefs are restricted to msdm's state list "
                "(reachable states)"]
 TOL = 1e-12
